@@ -19,11 +19,11 @@ def pBattery : P (Battery Float) := do
   let up ← P.list pPoint; let um ← P.num Float
   pure ⟨cap, ⟨lp, lm⟩, ⟨up, um⟩, soc, eff, eps⟩
 
-def pCost : P (Option (Cost Float)) := do
+def pCost : P (Option (GcCost Float)) := do
   let t ← P.tok
   if t == "N" then pure none
-  else if t == "F" then (fun v => some (Cost.fixed v)) <$> P.num Float
-  else if t == "P" then (fun cs => some (Cost.polynomial cs)) <$> P.list (P.num Float)
+  else if t == "F" then (fun v => some (GcCost.fixed v)) <$> P.num Float
+  else if t == "P" then (fun cs => some (GcCost.polynomial cs)) <$> P.list (P.num Float)
   else failure
 
 def pGc : P (GcS Float) := do
